@@ -16,7 +16,7 @@ RTCP_KINDS = '{"flip_hdr", "flip_payload", "flip_tag", "flip_ebit", "truncate", 
 BASE = dict(Ssrcs="{1}", ForgedSsrcs="{}", SeqBits=4, SeqAlpha=ALL16, MaxRoc=2, StartIdx="{15, 24}",
             StartFresh="TRUE", StepsFwd="{}", StepsBack="{}", MaxLen=4, MaxSent=3, Watermark=2,
             WithRtcp="FALSE", WithTick="FALSE", RtpForgeKinds="{}", RtcpForgeKinds="{}", ForgeOffsets="{}",
-            ForgeReps="{1}", RtcpTop=1000, Embed='"low"')
+            ForgeReps="{1}", RtcpTop=1000, Embed='"low"', RtcpBase=0)
 
 
 def conf(**kw):
@@ -41,6 +41,13 @@ CONFIGS = {
         # SRTCP index at the top of its 31-bit space: index 2^31-1 is the last one, then the key is exhausted
         ("rtcp/top", conf(Ssrcs="{1, 2}", SeqAlpha="{15, 0}", StartIdx="{15}", StartFresh="FALSE", StepsFwd="{1}",
                           StepsBack="{}", WithRtcp="TRUE", RtcpTop=2, MaxLen=6, MaxSent=8, Embed='"rtcptop"')),
+        # SRTCP index positions where index bytes move inside the AES-CM IV / GCM nonce: across 2^16 (both senders really
+        # stand there: the reference sender is advanced by 65 533 packets) and across 2^24 (rustrtc sender placed by the
+        # H4 override; the reference's stateless receiver is the oracle)
+        ("rtcp/pos16", conf(SeqAlpha="{15, 0}", StartIdx="{15}", StartFresh="FALSE", StepsFwd="{1}", StepsBack="{}",
+                            WithRtcp="TRUE", MaxLen=5, MaxSent=6, Embed='"rtcppos"', RtcpBase=65533)),
+        ("rtcp/pos24", conf(SeqAlpha="{15, 0}", StartIdx="{15}", StartFresh="FALSE", StepsFwd="{1}", StepsBack="{}",
+                            WithRtcp="TRUE", MaxLen=5, MaxSent=6, Embed='"rtcppos"', RtcpBase=16777213)),
         # several SSRCs interleaved, SRTCP
         ("multi/rtcp", conf(Ssrcs="{1, 2, 3}", SeqAlpha="{0, 1, 14, 15}", StartIdx="{15}", StepsFwd="{1, 2}",
                             StepsBack="{1}", WithRtcp="TRUE", MaxLen=4, MaxSent=4)),
@@ -57,6 +64,10 @@ CONFIGS = {
                                   MaxLen=5, MaxSent=5, Embed='"highroc"')),
         ("rtcp/top", conf(Ssrcs="{1, 2}", SeqAlpha="{15, 0}", StartIdx="{15}", StartFresh="FALSE", StepsFwd="{1}",
                           StepsBack="{}", WithRtcp="TRUE", RtcpTop=2, MaxLen=7, MaxSent=9, Embed='"rtcptop"')),
+        ("rtcp/pos16", conf(SeqAlpha="{15, 0}", StartIdx="{15}", StartFresh="FALSE", StepsFwd="{1}", StepsBack="{}",
+                            WithRtcp="TRUE", MaxLen=6, MaxSent=7, Embed='"rtcppos"', RtcpBase=65533)),
+        ("rtcp/pos24", conf(SeqAlpha="{15, 0}", StartIdx="{15}", StartFresh="FALSE", StepsFwd="{1}", StepsBack="{}",
+                            WithRtcp="TRUE", MaxLen=6, MaxSent=7, Embed='"rtcppos"', RtcpBase=16777213)),
         ("multi/rtcp", conf(Ssrcs="{1, 2, 3}", SeqAlpha="{0, 1, 14, 15}", StartIdx="{15}", StepsFwd="{1, 2}",
                             StepsBack="{1}", WithRtcp="TRUE", MaxLen=5, MaxSent=5)),
         ("idle/churn", conf(Ssrcs="{1, 2, 3}", SeqAlpha="{15, 0, 1, 2}", StartIdx="{16}", StartFresh="FALSE", StepsFwd="{1}",
